@@ -22,7 +22,8 @@ RULE = ("Four modes. 'skeleton': a generated TAL template without the structure 
         "'passthrough': TAL-free documents from an HTML grammar (doctype, comments, PIs, nesting, void elements, "
         "valueless / quoted / unquoted attributes, entity and character references, script/style raw text) must expand "
         "to a token-equal document and a second expansion must change nothing. 'restore': after expanding a generated "
-        "template (missing paths, empty repeats, false conditions included) the context's locals, local/repeat stacks "
+        "template (missing paths, empty repeats - over empty lists and over empty, exhausted and live iterators, generators "
+        "and length-less iterables -, false conditions included) the context's locals, local/repeat stacks "
         "and repeat map are as before and its globals are the same objects plus exactly the explicit global defines. "
         "Non-trivial: skeleton - a hostile value reaches the output; python - expression reached; passthrough - "
         "document with an entity, comment, raw-text element or valueless attribute; restore - template with a "
@@ -179,6 +180,22 @@ def _case(draw):
                          "kids": [], "void": False}]}
         c["template"] = tpl + draw(st.sampled_from([[inc], [rep], [inc, rep], [rep, inc]])) + draw(talgen.nodes(0, {}))
         c["include"] = True
+    if mode == "restore" and draw(st.booleans()):
+        # loops over things that are not sequences: iterators and generators (empty, non-empty, already exhausted) and an
+        # iterable object without a length; inside an element with a local define, alone, and nested in a list loop
+        seqs = draw(st.lists(st.sampled_from(["eit", "egen", "git", "xit", "oit", "eoit"]), min_size=1, max_size=3))
+        els = []
+        for i, sq in enumerate(seqs):
+            loop = {"t": "el", "tag": "li", "attrs": [], "tal": {"repeat": "itv%d %s" % (i, sq), "content": "itv%d" % i}, "metal": {},
+                    "kids": [{"t": "text", "s": "x"}], "void": False}
+            shape = draw(st.sampled_from(["bare", "define", "nested"]))
+            if shape == "define":
+                loop = {"t": "el", "tag": "ul", "attrs": [], "tal": {"define": "itw%d s1" % i}, "metal": {}, "kids": [loop], "void": False}
+            elif shape == "nested":
+                loop = {"t": "el", "tag": "ul", "attrs": [], "tal": {"repeat": "ito%d lst2" % i}, "metal": {}, "kids": [loop], "void": False}
+            els.append(loop)
+        c["template"] = c["template"] + els
+        c["iters"] = True
     return c
 
 
@@ -356,6 +373,18 @@ def _check_restore(case, ctx):
     if case.get("include"):
         c.addGlobal("subtpl", simpleTAL.compileHTMLTemplate(
             '<b tal:content="s1">x</b><i tal:define="q s2" tal:content="q">y</i><u tal:repeat="r lst2" tal:content="r">z</u>'))
+    if case.get("iters"):
+        class _Iterable:
+            def __init__(self, vals):
+                self.vals = vals
+
+            def __iter__(self):
+                return iter(self.vals)
+        spent = iter(["a"])
+        next(spent)
+        for k, v in (("eit", iter([])), ("egen", (x for x in ())), ("git", (x for x in ("g1", "g<2>"))), ("xit", spent),
+                     ("oit", _Iterable(["o1", "o2"])), ("eoit", _Iterable([]))):
+            c.addGlobal(k, v)
     before_globals = dict(c.globals)
     before_locals = dict(c.locals)
     out = io.StringIO()
@@ -367,7 +396,8 @@ def _check_restore(case, ctx):
     hasdef = "tal:define" in text or " define=" in text
     if rep or hasdef:
         ctx.nontriv()
-    ctx.label("restore", "restore-repeats:%d" % min(rep, 3), "restore-define:%s" % hasdef, "restore-include:%s" % bool(case.get("include")))
+    ctx.label("restore", "restore-repeats:%d" % min(rep, 3), "restore-define:%s" % hasdef, "restore-include:%s" % bool(case.get("include")),
+              "restore-iterator-loops:%s" % bool(case.get("iters")))
     ctx.sample({"template": text[:500]}, cls="restore")
     fails = []
     if c.locals != before_locals:
